@@ -15,6 +15,7 @@ import (
 	"io"
 	"net/http"
 	"net/http/httptest"
+	"net/http/httptrace"
 	"sort"
 	"strconv"
 	"strings"
@@ -92,7 +93,10 @@ type c16Req struct {
 	lvl  int     // pre: level / variant
 	rd   string  // how the handler reads: "" / "all" = io.ReadAll; "chunk:<n>" = n bytes at a time to the end; "partial:<k>" = at most k bytes; "none"
 	cl   int     // how often the handler calls r.Body.Close() afterwards
-	chk  bool    // the request body has no known length (streaming source): sent with Transfer-Encoding: chunked, ContentLength -1,
+	rpl  string  // "" | "idem" | "xidem" | "get": a REPLAY history — the request is replayable for net/http's Transport (Idempotency-Key /
+	//              X-Idempotency-Key header, or GET with a body; the body has GetBody), the server kills the first attempt on the reused
+	//              keep-alive connection without answering, the Transport rewinds with GetBody and retries on a new connection
+	chk bool // the request body has no known length (streaming source): sent with Transfer-Encoding: chunked, ContentLength -1,
 	//              unless the configured client compresses it first (the compressed buffer has a known length)
 }
 
@@ -441,6 +445,17 @@ func c16Corpus() []c16Case {
 		{mode: "client", body: c16Body{kind: 'r', n: 1900, seed: 1}, chk: true},
 		{mode: "client", body: c16Body{kind: 'z', n: 100_000}, chk: true},
 	}})
+	// replay histories, every algorithm: request 1 leaves an idle keep-alive connection, request 2 (replayable) dies on it unanswered and
+	// is resent by net/http with GetBody on a fresh connection — the handler must still read exactly the client's bytes
+	for _, ct := range []string{"gzip", "zlib", "deflate", "zstd", "snappy", "lz4", "none"} {
+		cs = append(cs, c16Case{algosNil: true, max: 100000, ct: ct, reqs: []c16Req{
+			{mode: "client", body: c16Body{kind: 't', n: 500}},
+			{mode: "client", body: c16Body{kind: 't', n: 4000}, rpl: "idem"},
+			{mode: "client", body: c16Body{kind: 'r', n: 3000, seed: 17}, rpl: "xidem"},
+			{mode: "client", body: c16Body{kind: 't', n: 2500}, rpl: "get"},
+			{mode: "client", body: c16Body{kind: 't', n: 700}},
+		}})
+	}
 	// names: the Content-Encoding a client writes is the configured algorithm's own name, so a server listing exactly that
 	// name accepts it and a server listing everything BUT that name (incl. the other name of the same format) rejects it
 	for _, ct := range []string{"gzip", "zlib", "deflate", "zstd", "snappy", "lz4"} {
@@ -603,6 +618,12 @@ func c16Gen(c int, rnd interface {
 				}
 			}
 		}
+		if i > 0 && r.mode == "client" && rnd.IntN(4) == 0 {
+			// a replay history: the previous request left an idle keep-alive connection; this one is replayable and its first attempt dies
+			r.rpl = []string{"idem", "xidem", "get"}[rnd.IntN(3)]
+			cs.reqs = append(cs.reqs, r)
+			continue
+		}
 		r.chk = rnd.IntN(3) == 0 // a body source of unknown length (chunked on the wire unless the client compresses it first)
 		if r.mode != "garbage" && rnd.IntN(3) == 0 {
 			// streaming behaviour of the handler: small chunks / a prefix only / nothing, and Close by the handler
@@ -644,8 +665,72 @@ type c16Seen struct {
 	enc      string
 	encCount int
 	remote   string
+	attempts int   // replay histories: how many times the request arrived
 	viewCL   int64 // r.ContentLength as the base handler sees it
 	viewCE   bool  // Content-Encoding header still present for the base handler
+}
+
+// c16RecordingRT stands where the real http.Transport stands behind compressRoundTripper and looks at the outgoing request
+type c16RecordingRT struct {
+	body, getBody []byte
+	hasGetBody    bool
+	getBodyErr    error
+	enc           string
+	cl            int64
+}
+
+func (r *c16RecordingRT) RoundTrip(req *http.Request) (*http.Response, error) {
+	r.enc, r.cl = req.Header.Get("Content-Encoding"), req.ContentLength
+	if req.GetBody != nil {
+		r.hasGetBody = true
+		gb, err := req.GetBody()
+		r.getBodyErr = err
+		if err == nil {
+			r.getBody, _ = io.ReadAll(gb)
+			gb.Close()
+		}
+	}
+	if req.Body != nil {
+		r.body, _ = io.ReadAll(req.Body)
+		req.Body.Close()
+	}
+	return &http.Response{StatusCode: 200, Body: http.NoBody, Header: http.Header{}, Request: req}, nil
+}
+
+func c16GetBodyCheck(out *vOut, cs c16Case) {
+	lvl := cs.lvl
+	if lvl == 0 {
+		lvl = int(configcompression.DefaultCompressionLevel)
+	}
+	rec := &c16RecordingRT{}
+	rt, err := newCompressRoundTripper(rec, configcompression.Type(cs.ct), newCompressionParams(configcompression.Level(lvl)))
+	if err != nil {
+		return
+	}
+	plain := c16Body{kind: 't', n: 3000}.bytes()
+	req, _ := http.NewRequest(http.MethodPost, "http://c16.invalid/", bytes.NewReader(plain)) // bytes.Reader: the caller's GetBody is set
+	out.Linef("op getbody ct=%s", vHex(cs.ct))
+	verdict := "equal"
+	func() {
+		defer func() {
+			if p := recover(); p != nil {
+				verdict = "panic"
+			}
+		}()
+		if _, err := rt.RoundTrip(req); err != nil {
+			verdict = "error"
+		}
+	}()
+	switch {
+	case verdict != "equal":
+	case !rec.hasGetBody:
+		verdict = "absent" // not replayable: allowed, but then net/http can never resend it
+	case rec.getBodyErr != nil || !bytes.Equal(rec.getBody, rec.body):
+		verdict = "differs"
+		out.Linef("viol sig=C16/client/getbody-differs-from-body/%s body=%d getbody=%d equals-uncompressed-input=%v content-length=%d", cs.ct, len(rec.body), len(rec.getBody), bytes.Equal(rec.getBody, plain), rec.cl)
+	}
+	out.Linef("obs getbody %s enc=%s", verdict, vHex(rec.enc))
+	out.Linef("stat getbody_checked 1")
 }
 
 // c16HandlerRead: the handler's way of consuming the body. A clean end of stream is not an error.
@@ -789,7 +874,20 @@ func c16Stage(t *testing.T, out *vOut, cs c16Case) bool {
 	if err != nil {
 		t.Fatalf("ToServer: %v", err)
 	}
+	aborted := map[string]bool{}
 	outer := http.HandlerFunc(func(w http.ResponseWriter, r *http.Request) {
+		if id := r.Header.Get("X-C16-Abort-Once"); id != "" {
+			seen.mu.Lock()
+			first := !aborted[id]
+			aborted[id] = true
+			seen.attempts++
+			seen.mu.Unlock()
+			if first {
+				// the exchange dies before any answer: read what was sent, then drop the connection
+				_, _ = io.Copy(io.Discard, r.Body)
+				panic(http.ErrAbortHandler)
+			}
+		}
 		seen.mu.Lock()
 		seen.wireLen = r.ContentLength
 		seen.enc = r.Header.Get("Content-Encoding")
@@ -833,6 +931,12 @@ func c16Stage(t *testing.T, out *vOut, cs c16Case) bool {
 		limit = defaultMaxRequestBodySize
 	}
 	lastRemote := ""
+	reqNo := 0
+	// direct oracle on the request the compressing round-tripper hands to the inner transport: its GetBody (what net/http replays
+	// after a dead keep-alive connection) must yield exactly the bytes of its Body
+	if cty := configcompression.Type(cs.ct); cty.IsCompressed() {
+		c16GetBodyCheck(out, cs)
+	}
 	for _, rq := range cs.reqs {
 		*seen = c16Seen{}
 		plain := rq.body.bytes()
@@ -847,10 +951,32 @@ func c16Stage(t *testing.T, out *vOut, cs c16Case) bool {
 		if rq.chk {
 			bodyReader = c16Unsized{bytes.NewReader(given)}
 		}
-		req, err := http.NewRequest(http.MethodPost, ts.URL, bodyReader)
+		method := http.MethodPost
+		if rq.rpl == "get" {
+			method = http.MethodGet
+		}
+		req, err := http.NewRequest(method, ts.URL, bodyReader)
 		if err != nil {
 			t.Fatal(err)
 		}
+		switch rq.rpl {
+		case "idem":
+			req.Header.Set("Idempotency-Key", fmt.Sprintf("k-%d", reqNo))
+		case "xidem":
+			req.Header.Set("X-Idempotency-Key", fmt.Sprintf("k-%d", reqNo))
+		}
+		firstReused, gotConns := false, 0
+		if rq.rpl != "" {
+			req.Header.Set("X-C16-Abort-Once", fmt.Sprintf("r-%d", reqNo))
+			// net/http replays only what died on a REUSED idle connection: watch which connection the first attempt gets
+			req = req.WithContext(httptrace.WithClientTrace(req.Context(), &httptrace.ClientTrace{GotConn: func(info httptrace.GotConnInfo) {
+				if gotConns == 0 {
+					firstReused = info.Reused
+				}
+				gotConns++
+			}}))
+		}
+		reqNo++
 		if rq.hdr != "" {
 			req.Header.Set("Content-Encoding", rq.hdr)
 		}
@@ -879,6 +1005,20 @@ func c16Stage(t *testing.T, out *vOut, cs c16Case) bool {
 		seen.mu.Lock()
 		s := *seen
 		seen.mu.Unlock()
+		if rq.rpl != "" {
+			if !firstReused {
+				// the first attempt went out on a fresh connection (the previous exchange did not leave an idle one): net/http does
+				// not replay then, there is no exchange to judge
+				out.Linef("stat replay_not_taken_fresh_connection 1")
+				continue
+			}
+			out.Linef("stat replayed_%s 1", rq.rpl)
+			if derr != nil || s.attempts < 2 {
+				// a replayable request that died on a reused connection MUST be resent and delivered; if the client gives up (e.g. the
+				// rewound body does not match the announced length) the handler never gets the client's bytes
+				out.Linef("viol sig=C16/client/replayed-request-not-delivered/%s replay=%s attempts=%d err=%q", cs.ct, rq.rpl, s.attempts, fmt.Sprint(derr))
+			}
+		}
 		if s.wireLen < 0 {
 			// unknown length on the wire (chunked): only possible when the client passed the given bytes through
 			s.wireLen = int64(len(given))
@@ -927,7 +1067,7 @@ func c16Stage(t *testing.T, out *vOut, cs c16Case) bool {
 		if rd == "" {
 			rd = "all"
 		}
-		out.Linef("op req mode=%s hdr=%s body=%s wire=%d rd=%s chunked=%d%s%s", rq.mode, vHex(rq.hdr), rq.body.String(), s.wireLen, rd, vB(rq.chk), pre, extra)
+		out.Linef("op req mode=%s hdr=%s body=%s wire=%d rd=%s chunked=%d replay=%s%s%s", rq.mode, vHex(rq.hdr), rq.body.String(), s.wireLen, rd, vB(rq.chk), map[bool]string{true: "-", false: rq.rpl}[rq.rpl == ""], pre, extra)
 		if lastRemote != "" && s.remote == lastRemote {
 			out.Linef("stat same_connection_as_previous_request 1")
 		}
